@@ -134,7 +134,7 @@ theorem inv_step {m : Mode} {post : Store → R} {s s' : St R} {l : Label}
       · simp only [Option.some.injEq] at hs; subst hs
         exact inv_append h isReq .joining true (some r)
       · simp only [Option.some.injEq] at hs; subst hs
-        have := inv_append h isReq .unlocked s.flag s.joiner
+        have := inv_append h isReq .unlocked false s.joiner
         exact this
     · cases hs
   | cJoin r =>
@@ -144,7 +144,7 @@ theorem inv_step {m : Mode} {post : Store → R} {s s' : St R} {l : Label}
       split at hs
       · simp only [Option.some.injEq] at hs; subst hs
         have hw : WInv m post s.gen s.hist o.startGen o.w := (h.ops o (List.mem_of_getElem? ho)).2
-        exact inv_update h r o ho .unlocked o.w s.flag s.tracked none hw
+        exact inv_update h r o ho .unlocked o.w false s.tracked none hw
       · cases hs
     · cases hs
   | cClear r =>
@@ -154,7 +154,7 @@ theorem inv_step {m : Mode} {post : Store → R} {s s' : St R} {l : Label}
       split at hs
       · simp only [Option.some.injEq] at hs; subst hs
         have hw : WInv m post s.gen s.hist o.startGen o.w := (h.ops o (List.mem_of_getElem? ho)).2
-        exact inv_update h r o ho .cleared o.w false s.tracked s.joiner hw
+        exact inv_update h r o ho .cleared o.w s.flag s.tracked s.joiner hw
       · cases hs
     · cases hs
   | rTrack r =>
